@@ -164,6 +164,10 @@ impl Enc {
                 self.put(&varint(s.len() as u128), Role::Len);
                 self.put(s.as_bytes(), Role::Payload)
             }
+            Val::DisplayChars(t) => {
+                self.put(&varint(t.len() as u128), Role::Len);
+                self.put(t.as_bytes(), Role::Payload)
+            }
             Val::Bytes(b) => {
                 self.put(&varint(b.len() as u128), Role::Len);
                 self.put(b, Role::Payload)
